@@ -19,6 +19,7 @@ EXPLANATION = (
     "min/max nests); R5 the timer pair: the named timer takes the new state, the other one is copied from the last reported status (IfExp "
     "evaluated for both timer types), both in one record for self.ac_id."
     ' Rounds 7-8: R5 also: self._ac_timer_status is assigned in __init__ and update_ac_timer_status only.'
+    ' Rounds 9-10: R3 also: nothing but the transmission is awaited in a setter; R5 also: update_* is called from the _process_* handlers only; R10 (C01.R3/R5 re-used); R11 (C02.R2 re-used): the shared retry policies are never written to.'
 )
 ASSUMPTIONS = ["round() is Python's banker's rounding; ties are outside the decided clauses"]
 FLOORS = {"C11.R1": 12, "C11.R2": 8, "C11.R3": 18, "C11.R4": 6, "C11.R5": 8, "C11.R6": 1, "C11.R7": 1, "C11.R8": 1, "C11.R9": 1, "C11.R10": 1, "C11.R11": 1}
